@@ -41,7 +41,7 @@ CLAIMS = {
                  "network.py are called with the dtype/rank they declare; virtual "
                  "self-calls of inherited Network methods are accepted by every "
                  "override. Needs e.g. a degree>=4 non-clique neighbourhood to show "
-                 "in a test; holds for all graphs once shown on the source. Also: pair-count normalisers keep both factors in the denominator (no `x / N * (N - 1)`); the clique kernels may enumerate ordered tuples or each subset once (then with the r! factor and a correct `previous + 1` chain of loop starts); the direction convention A[i,j] = link i->j holds in every in/out-degree method (axis 0 / axis 1) and behind a direction=\"in\"/\"out\" parameter folded to either constant (M7)."),
+                 "in a test; holds for all graphs once shown on the source. Also: pair-count normalisers keep both factors in the denominator (no `x / N * (N - 1)`); the clique kernels may enumerate ordered tuples or each subset once (then with the r! factor and a correct `previous + 1` chain of loop starts); the direction convention A[i,j] = link i->j holds in every in/out-degree method (axis 0 / axis 1) and behind a direction=\"in\"/\"out\" parameter folded to either constant (M7). Also: `*` is never applied to two matrices that are scipy sparse on one path and dense on another (M8)."),
         "note": ("Does NOT decide that any measure equals its definition "
                  "(igraph/scipy/spectral measures are out of reach)."),
         "technique": "loop-nest guard-set extraction over the Cython parse tree, kernel-boundary type inference, override-signature check",
@@ -95,7 +95,7 @@ CLAIMS = {
                  "colour), the Python methods call the wrapper matching the branch "
                  "condition, the cache key covers the dispatch flags, per-row scan "
                  "flags are reset unconditionally, derived RQA measures read the "
-                 "histograms only and never edit them in place. Also: the three histograms consult the same mode flags (L7), _line_dist addresses samples only by sample indices (L8), the sequential mode compares at the precision of the matrix mode (L9); a dispatch handed to a private helper with a constant line type and a class-level kernel table (dict / namedtuple slots) is followed slot by slot (L1)."),
+                 "histograms only and never edit them in place. Also: the three histograms consult the same mode flags (L7), _line_dist addresses samples only by sample indices (L8), the sequential mode compares at the precision of the matrix mode (L9); a dispatch handed to a private helper with a constant line type and a class-level kernel table (dict / namedtuple slots) is followed slot by slot (L1); summary methods forward l_min / v_min to the measure parameter of the same role, also through table-driven getattr loops (L11)."),
         "note": "Does NOT verify the run-length algorithm itself or the measure formulas.",
         "technique": "table agreement over the Cython parse tree and path conditions over Python ast",
     },
